@@ -1,3 +1,271 @@
-import OmplModel.Model.PathOps
+import OmplModel.Proofs.PathOpsRemove
+import OmplModel.Proofs.PathOpsRope
+import OmplModel.Proofs.PathOpsDensify
+/-!
+# C17 — path post-processing preserves endpoints, validity and never worsens cost
+
+Property theorems about the model `OmplModel.PathOps` (Model/PathOps.lean) of the deterministic path
+post-processing code: `PathSimplifier::reduceVertices` (as a function of its random index draws),
+`collapseCloseVertices`, `ropeShortcutPath`, the splice of `partialShortcutPath`, and
+`PathGeometric::subdivide` / `interpolate()` / `interpolate(count)`.
+
+Quantifiers: every state type `σ`, every `checkMotion` oracle `cm`, every distance / interpolation /
+objective / rounding function, every draw stream, every step bound and every input path (any length,
+repeated states included) — nothing is assumed about them unless a theorem says so.  All theorems
+except the `never_longer`/`length_eq` ones are arithmetic-free, so they hold of the `Float`
+instantiation that the driver runs in lock-step with the real code.  `never_longer` is stated over an
+ordered additive commutative monoid with the triangle inequality as its only hypothesis on `dist`.
+
+A result `none` of a model function means "the C++ code indexes a vector out of range / erases an
+ill-formed range" (checked indexing); `indices_in_range` theorems say this never happens.
+
+Not here (trace conformance only, see checks/c17.py): smoothBSpline, perturbPath, findBetterGoal,
+simplify, PathHybridization, and the sampling logic of partialShortcutPath.
+Helper lemmas: Proofs/PathOpsRemove.lean, PathOpsRope.lean, PathOpsDensify.lean.
+-/
 namespace OmplModel.Props.C17
+open OmplModel.PathOps
+
+variable {σ : Type}
+
+/-! ## reduceVertices — for every scripted choice sequence -/
+
+/-- checked indexing never fails: `states[p1]`, `states[p2]` and the erase range are always in range -/
+theorem reduce_indices_in_range (cm : σ → σ → Bool) (rangeOf draw : Nat → Nat) (ms me : Nat) (path : List σ) :
+    (reduceVertices cm rangeOf draw ms me path).isSome = true :=
+  reduceVertices_isSome cm rangeOf draw ms me path
+
+theorem reduce_keeps_first {cm : σ → σ → Bool} {rangeOf draw : Nat → Nat} {ms me : Nat} {path out : List σ} {r : Bool}
+    (h : reduceVertices cm rangeOf draw ms me path = some (out, r)) : out.head? = path.head? :=
+  (reduceVertices_shortcuts h).head?
+
+theorem reduce_keeps_last {cm : σ → σ → Bool} {rangeOf draw : Nat → Nat} {ms me : Nat} {path out : List σ} {r : Bool}
+    (h : reduceVertices cm rangeOf draw ms me path = some (out, r)) : out.getLast? = path.getLast? :=
+  (reduceVertices_shortcuts h).getLast?
+
+/-- the result is a subsequence of the input (vertices are only removed, never moved or duplicated) -/
+theorem reduce_subsequence {cm : σ → σ → Bool} {rangeOf draw : Nat → Nat} {ms me : Nat} {path out : List σ} {r : Bool}
+    (h : reduceVertices cm rangeOf draw ms me path = some (out, r)) : out.Sublist path :=
+  (reduceVertices_shortcuts h).sublist
+
+/-- every motion of the result is a motion of the input or a pair `checkMotion` answered true for -/
+theorem reduce_only_validated_motions {cm : σ → σ → Bool} {rangeOf draw : Nat → Nat} {ms me : Nat}
+    {path out : List σ} {r : Bool} (h : reduceVertices cm rangeOf draw ms me path = some (out, r)) :
+    ∀ p ∈ adj out, p ∈ adj path ∨ cm p.1 p.2 = true :=
+  (reduceVertices_shortcuts h).adj
+
+/-- never longer, given only the triangle inequality -/
+theorem reduce_never_longer {α : Type} [AddCommMonoid α] [PartialOrder α] [IsOrderedAddMonoid α]
+    (dist : σ → σ → α) (tri : ∀ a b c, dist a c ≤ dist a b + dist b c)
+    {cm : σ → σ → Bool} {rangeOf draw : Nat → Nat} {ms me : Nat} {path out : List σ} {r : Bool}
+    (h : reduceVertices cm rangeOf draw ms me path = some (out, r)) : pathLen dist out ≤ pathLen dist path :=
+  (reduceVertices_shortcuts h).pathLen_le dist tri
+
+theorem reduce_false_unchanged {cm : σ → σ → Bool} {rangeOf draw : Nat → Nat} {ms me : Nat} {path out : List σ}
+    (h : reduceVertices cm rangeOf draw ms me path = some (out, false)) : out = path :=
+  reduceVertices_false_unchanged h
+
+/-- non-vacuity: draws (1, 3) on a five-state path whose only invalid chord is 0–4 remove states 2 -/
+example : reduceVertices (fun a b : Nat => !(a == 0 && b == 4)) (fun _ => 3) (fun k => if k == 0 then 1 else 3) 1 0
+    [0, 1, 2, 3, 4] = some ([0, 1, 3, 4], true) := by decide
+
+/-! ## collapseCloseVertices -/
+
+theorem collapse_indices_in_range {α : Type} [BEq σ] (cm : σ → σ → Bool) (dist : σ → σ → α) (lt : α → α → Bool)
+    (inf : α) (ms me : Nat) (path : List σ) : (collapseCloseVertices cm dist lt inf ms me path).isSome = true :=
+  collapse_isSome cm dist lt inf ms me path
+
+theorem collapse_keeps_first {α : Type} [BEq σ] {cm : σ → σ → Bool} {dist : σ → σ → α} {lt : α → α → Bool} {inf : α}
+    {ms me : Nat} {path out : List σ} {r : Bool}
+    (h : collapseCloseVertices cm dist lt inf ms me path = some (out, r)) : out.head? = path.head? :=
+  (collapse_shortcuts h).head?
+
+theorem collapse_keeps_last {α : Type} [BEq σ] {cm : σ → σ → Bool} {dist : σ → σ → α} {lt : α → α → Bool} {inf : α}
+    {ms me : Nat} {path out : List σ} {r : Bool}
+    (h : collapseCloseVertices cm dist lt inf ms me path = some (out, r)) : out.getLast? = path.getLast? :=
+  (collapse_shortcuts h).getLast?
+
+theorem collapse_subsequence {α : Type} [BEq σ] {cm : σ → σ → Bool} {dist : σ → σ → α} {lt : α → α → Bool} {inf : α}
+    {ms me : Nat} {path out : List σ} {r : Bool}
+    (h : collapseCloseVertices cm dist lt inf ms me path = some (out, r)) : out.Sublist path :=
+  (collapse_shortcuts h).sublist
+
+theorem collapse_only_validated_motions {α : Type} [BEq σ] {cm : σ → σ → Bool} {dist : σ → σ → α} {lt : α → α → Bool}
+    {inf : α} {ms me : Nat} {path out : List σ} {r : Bool}
+    (h : collapseCloseVertices cm dist lt inf ms me path = some (out, r)) :
+    ∀ p ∈ adj out, p ∈ adj path ∨ cm p.1 p.2 = true :=
+  (collapse_shortcuts h).adj
+
+/-- never longer under ANY length function obeying the triangle inequality (`len` need not be the
+`dist` the routine uses to pick pairs) -/
+theorem collapse_never_longer {α β : Type} [AddCommMonoid β] [PartialOrder β] [IsOrderedAddMonoid β] [BEq σ]
+    (len : σ → σ → β) (tri : ∀ a b c, len a c ≤ len a b + len b c)
+    {cm : σ → σ → Bool} {dist : σ → σ → α} {lt : α → α → Bool} {inf : α} {ms me : Nat} {path out : List σ} {r : Bool}
+    (h : collapseCloseVertices cm dist lt inf ms me path = some (out, r)) : pathLen len out ≤ pathLen len path :=
+  (collapse_shortcuts h).pathLen_le len tri
+
+theorem collapse_false_unchanged {α : Type} [BEq σ] {cm : σ → σ → Bool} {dist : σ → σ → α} {lt : α → α → Bool}
+    {inf : α} {ms me : Nat} {path out : List σ}
+    (h : collapseCloseVertices cm dist lt inf ms me path = some (out, false)) : out = path :=
+  OmplModel.PathOps.collapse_false_unchanged h
+
+/-- non-vacuity: states on a line, the closest non-adjacent pair (3, 4) … collapses first -/
+example : collapseCloseVertices (fun _ _ : Nat => true) (fun a b : Nat => (a - b) + (b - a)) (fun a b => decide (a < b))
+    1000 1 0 [0, 10, 3, 20, 4] = some ([0, 10, 3, 4], true) := by decide
+
+/-! ## ropeShortcutPath -/
+
+/-- F9: checked indexing FAILS on the unchanged tree — after `states.erase(i+1 .. j)` the routine
+reads `states[j]`, here on a three-state path whose shortcut 0→2 is valid and better: index 2 of a
+two-element vector (`oob = true`) -/
+theorem rope_indices_in_range_fails :
+    ∃ out r fo, ropeShortcutPath f9Env false 10 [0, 1, 2] = some (out, r, true, fo) := rope_oob
+
+/-- … and when the stale index is still in range it names a later state, so the number of
+re-inserted intermediate states comes from the wrong distance (the repaired variant differs) -/
+theorem rope_stale_index_wrong_state :
+    ropeShortcutPath f9Env2 false 10 [0, 4, 2, 6, 10, 14] = some ([0, 1, 2, 6, 10, 14], true, false, false) ∧
+    ropeShortcutPath f9Env2 true 10 [0, 4, 2, 6, 10, 14] = some ([0, 2, 6, 10, 14], true, false, false) :=
+  rope_stale_wrong_state
+
+/-- what IS true of the unchanged code: every other index of the routine (both loops, the cumulative
+cost table, the erase range, the re-insertion) is always in range.  Full statement (false, see
+`rope_indices_in_range_fails`): additionally `oob = false`. -/
+theorem rope_indices_in_range_partial {γ : Type} (E : RopeEnv σ γ) (fixed : Bool) (fuel : Nat) (path : List σ) :
+    (ropeShortcutPath E fixed fuel path).isSome = true := rope_indices_partial E fixed fuel path
+
+/-- the repair proposed in notes/C17-fix-F9.diff never reads past the end -/
+theorem rope_fixed_indices_in_range {γ : Type} {E : RopeEnv σ γ} {fuel : Nat} {path out : List σ} {r oob fo : Bool}
+    (h : ropeShortcutPath E true fuel path = some (out, r, oob, fo)) : oob = false := rope_fixed_no_oob h
+
+theorem rope_keeps_first {γ : Type} {E : RopeEnv σ γ} {fixed : Bool} {fuel : Nat} {path out : List σ} {r oob fo : Bool}
+    (h : ropeShortcutPath E fixed fuel path = some (out, r, oob, fo)) : out.head? = path.head? :=
+  OmplModel.PathOps.rope_keeps_first h
+
+theorem rope_keeps_last {γ : Type} {E : RopeEnv σ γ} {fixed : Bool} {fuel : Nat} {path out : List σ} {r oob fo : Bool}
+    (h : ropeShortcutPath E fixed fuel path = some (out, r, oob, fo)) : out.getLast? = path.getLast? :=
+  OmplModel.PathOps.rope_keeps_last h
+
+/-- every motion of the result is a piece (a motion of the chain `a, interp…, b`) of an input motion
+or of a motion `checkMotion` answered true for — with or without the stale-index defect -/
+theorem rope_only_validated_motions {γ : Type} {E : RopeEnv σ γ} {fixed : Bool} {fuel : Nat} {path out : List σ}
+    {r oob fo : Bool} (h : ropeShortcutPath E fixed fuel path = some (out, r, oob, fo)) :
+    ∀ p ∈ adj out, Derived E path p := rope_only_validated h
+
+theorem rope_false_only_densified {γ : Type} {E : RopeEnv σ γ} {fixed : Bool} {fuel : Nat} {path out : List σ}
+    {oob fo : Bool} (h : ropeShortcutPath E fixed fuel path = some (out, false, oob, fo)) :
+    out = path ∨ out = ropeDensify E path := rope_false_unchanged h
+
+/-- the original vertices survive the densification pass in order -/
+theorem rope_densify_subsequence {γ : Type} (E : RopeEnv σ γ) (l : List σ) : l.Sublist (ropeDensify E l) :=
+  ropeDensify_sublist E l
+
+/-- non-vacuity: the repaired variant on the F9 input -/
+example : ropeShortcutPath f9Env true 10 [0, 1, 2] = some ([0, 2], true, false, false) := rope_oob_fixed
+
+/-! ## the splice of partialShortcutPath (index / erase / insert bookkeeping of the four cases) -/
+
+theorem pshort_splice_both_interior (st : List σ) (pos0 pos1 : Nat) (s0 s1 : σ) (h01 : pos0 < pos1)
+    (h1 : pos1 < st.length) :
+    psSplice st pos0 false s0 pos1 false s1 = some (st.take (pos0 + 1) ++ [s0, s1] ++ st.drop (pos1 + 1)) :=
+  psSplice_ff st pos0 pos1 s0 s1 h01 h1
+
+theorem pshort_splice_both_vertices (st : List σ) (pos0 pos1 : Nat) (s0 s1 : σ) (h01 : pos0 + 1 ≤ pos1)
+    (h1 : pos1 ≤ st.length) :
+    psSplice st pos0 true s0 pos1 true s1 = some (st.take (pos0 + 1) ++ st.drop pos1) :=
+  psSplice_tt st pos0 pos1 s0 s1 h01 h1
+
+theorem pshort_splice_interior_vertex (st : List σ) (pos0 pos1 : Nat) (s0 s1 : σ) (h01 : pos0 + 2 ≤ pos1)
+    (h1 : pos1 ≤ st.length) :
+    psSplice st pos0 false s0 pos1 true s1 = some (st.take (pos0 + 1) ++ [s0] ++ st.drop pos1) :=
+  psSplice_ft st pos0 pos1 s0 s1 h01 h1
+
+theorem pshort_splice_vertex_interior (st : List σ) (pos0 pos1 : Nat) (s0 s1 : σ) (h01 : pos0 + 1 ≤ pos1)
+    (h1 : pos1 < st.length) :
+    psSplice st pos0 true s0 pos1 false s1 = some (st.take (pos0 + 1) ++ [s1] ++ st.drop (pos1 + 1)) :=
+  psSplice_tf st pos0 pos1 s0 s1 h01 h1
+
+/-- whenever the `continue` filter lets a pair of sampled points through (`psSkip = false`), the splice
+succeeds (no index error), keeps the first and the last state, and every motion of the result is an
+input motion, the validated pair, the prefix `(states[pos0], s0)` of an input motion cut at `s0`, or the
+suffix `(s1, states[pos1+1])` of an input motion cut at `s1` -/
+theorem pshort_splice_spec (st : List σ) (pos0 pos1 : Nat) (idx0 idx1 : Bool) (s0 s1 : σ)
+    (h01 : pos0 < pos1) (h1 : pos1 + 1 < st.length) (hs : psSkip pos0 idx0 pos1 idx1 = false) :
+    ∃ out, psSplice st pos0 idx0 s0 pos1 idx1 s1 = some out ∧ out.head? = st.head? ∧
+      out.getLast? = st.getLast? ∧
+      ∀ p ∈ adj out, p ∈ adj st ∨
+        p = (if idx0 then st[pos0]'(by omega) else s0, if idx1 then st[pos1]'(by omega) else s1) ∨
+        (idx0 = false ∧ p = (st[pos0]'(by omega), s0)) ∨
+        (idx1 = false ∧ p = (s1, st[pos1 + 1]'h1)) :=
+  psSplice_spec st pos0 pos1 idx0 idx1 s0 s1 h01 h1 hs
+
+example : psSplice [0, 10, 20, 30, 40] 0 false 5 2 false 25 = some [0, 5, 25, 30, 40] := by decide
+example : psSkip 0 false 2 false = false := by decide
+
+/-! ## densification: subdivide, interpolate(), interpolate(count) -/
+
+theorem subdivide_subsequence (mid : σ → σ → σ) (l : List σ) : l.Sublist (subdivide mid l) := subdivide_sublist mid l
+
+theorem subdivide_count (mid : σ → σ → σ) (l : List σ) (h : l ≠ []) : (subdivide mid l).length = 2 * l.length - 1 :=
+  subdivide_length mid l h
+
+theorem subdivide_keeps_ends (mid : σ → σ → σ) (l : List σ) :
+    (subdivide mid l).head? = l.head? ∧ (subdivide mid l).getLast? = l.getLast? :=
+  ⟨subdivide_head? mid l, subdivide_getLast? mid l⟩
+
+/-- every motion of the subdivided path is the first or the second half of an input motion -/
+theorem subdivide_motions (mid : σ → σ → σ) (l : List σ) :
+    ∀ p ∈ adj (subdivide mid l), ∃ q ∈ adj l, p = (q.1, mid q.1 q.2) ∨ p = (mid q.1 q.2, q.2) := subdivide_adj mid l
+
+/-- length unchanged when the midpoint lies on a shortest path between its neighbours -/
+theorem subdivide_length_eq {α : Type} [AddCommMonoid α] (dist : σ → σ → α) (mid : σ → σ → σ)
+    (hmid : ∀ a b, dist a (mid a b) + dist (mid a b) b = dist a b) (l : List σ) :
+    pathLen dist (subdivide mid l) = pathLen dist l :=
+  subdivide_pathLen dist mid hmid l
+
+theorem interpolate_subsequence (vsc : σ → σ → Nat) (frac : σ → σ → Nat → Nat → σ) (l : List σ) :
+    l.Sublist (interpolateAll vsc frac l) := interpolateAll_sublist vsc frac l
+
+theorem interpolate_keeps_ends (vsc : σ → σ → Nat) (frac : σ → σ → Nat → Nat → σ) (l : List σ) :
+    (interpolateAll vsc frac l).head? = l.head? ∧ (interpolateAll vsc frac l).getLast? = l.getLast? :=
+  ⟨interpolateAll_head? vsc frac l, interpolateAll_getLast? vsc frac l⟩
+
+/-- per segment exactly `validSegmentCount - 1` states are inserted — none for a count of 0 (a
+zero-length segment), where the unsigned `n - 1` of the code wraps around twice -/
+theorem interpolate_count (vsc : σ → σ → Nat) (frac : σ → σ → Nat → Nat → σ) (l : List σ)
+    (hv : ∀ a b, vsc a b < 4294967296) :
+    (interpolateAll vsc frac l).length = l.length + ((adj l).map fun p => vsc p.1 p.2 - 1).sum :=
+  interpolateAll_length vsc frac l hv
+
+theorem interpolateCount_subsequence {α : Type} (segLen : σ → σ → α) (sub : α → α → α) (approx : Int → α → α → Int)
+    (frac : σ → σ → Nat → Nat → σ) (len : α) (n : Nat) (l : List σ) :
+    l.Sublist (interpolateCount segLen sub approx frac len n l) :=
+  interpolateCount_sublist segLen sub approx frac len n l
+
+theorem interpolateCount_keeps_ends {α : Type} (segLen : σ → σ → α) (sub : α → α → α) (approx : Int → α → α → Int)
+    (frac : σ → σ → Nat → Nat → σ) (len : α) (n : Nat) (l : List σ) :
+    (interpolateCount segLen sub approx frac len n l).head? = l.head? ∧
+    (interpolateCount segLen sub approx frac len n l).getLast? = l.getLast? :=
+  ⟨interpolateCount_head? segLen sub approx frac len n l, interpolateCount_getLast? segLen sub approx frac len n l⟩
+
+/-- **exactly the requested number of states** for `count ≥ size ≥ 2`, whatever the rounding step
+`floor(0.5 + count * seg / remaining)`, the segment lengths and the remaining-length bookkeeping
+return (NaN, negative, huge: all covered — no rounding hypothesis is needed) -/
+theorem interpolateCount_exact {α : Type} (segLen : σ → σ → α) (sub : α → α → α) (approx : Int → α → α → Int)
+    (frac : σ → σ → Nat → Nat → σ) (len : α) (n : Nat) (l : List σ)
+    (h2 : 2 ≤ l.length) (hn : l.length ≤ n) (hint : n < 2147483648) :
+    (interpolateCount segLen sub approx frac len n l).length = n :=
+  OmplModel.PathOps.interpolateCount_exact segLen sub approx frac len n l h2 hn hint
+
+/-- the early returns (`requestCount < size` or `size < 2`): path unchanged -/
+theorem interpolateCount_early_return {α : Type} (segLen : σ → σ → α) (sub : α → α → α) (approx : Int → α → α → Int)
+    (frac : σ → σ → Nat → Nat → σ) (len : α) (n : Nat) (l : List σ) (h : n < l.length ∨ l.length < 2) :
+    interpolateCount segLen sub approx frac len n l = l :=
+  interpolateCount_small segLen sub approx frac len n l h
+
+/-- non-vacuity: 3 states, 7 requested, a rounding function that always answers 100 -/
+example : (interpolateCount (fun _ _ : Nat => (0 : Nat)) (fun a _ => a) (fun _ _ _ => 100)
+    (fun a _ j _ => a * 100 + j) 0 7 [1, 2, 3]).length = 7 := by decide
+example : subdivide (fun a b : Nat => (a + b) / 2) [0, 10, 20] = [0, 5, 10, 15, 20] := by decide
+
 end OmplModel.Props.C17
